@@ -30,6 +30,7 @@ type hprog struct {
 	FlushEach  bool
 	DeclareLen bool
 	Hijack     bool // take the connection over (Upgrade), answer 101 and close
+	Interim    int  // send this interim (1xx) response first
 }
 
 type progServer struct {
@@ -66,6 +67,11 @@ func (ps *progServer) base(w http.ResponseWriter, r *http.Request) {
 			}
 		}
 		return
+	}
+	if p.Interim != 0 {
+		w.Header().Set("Link", "</s.css>; rel=preload")
+		w.WriteHeader(p.Interim)
+		w.Header().Del("Link")
 	}
 	for _, h := range p.Header {
 		w.Header().Add(h.Name, h.Value)
@@ -190,15 +196,16 @@ type c14Case struct {
 	Comp     []int
 	Flush    string // none, first, each
 	Declare  bool
+	Interim  int
 }
 
 func (c c14Case) String() string {
-	return fmt.Sprintf("L=%d pos=%s %s status=%d writes=%v flush=%s declare=%v", c.L, c.Position, c.Method, c.Status, c.Comp, c.Flush, c.Declare)
+	return fmt.Sprintf("L=%d pos=%s %s status=%d writes=%v flush=%s declare=%v interim=%d", c.L, c.Position, c.Method, c.Status, c.Comp, c.Flush, c.Declare, c.Interim)
 }
 
 func (c c14Case) prog() *hprog {
 	return &hprog{Status: c.Status, Header: []wire.HeaderLine{{"Content-Type", "text/plain"}, {"X-Prog", "1"}}, Parts: partsOf(c.Comp, 5),
-		FlushFirst: c.Flush == "first", FlushEach: c.Flush == "each", DeclareLen: c.Declare}
+		FlushFirst: c.Flush == "first", FlushEach: c.Flush == "each", DeclareLen: c.Declare, Interim: c.Interim}
 }
 
 func c14Total(comp []int) int {
@@ -220,6 +227,9 @@ func c14JudgeResponse(c c14Case, with, without wire.Response) (string, string) {
 		// within limits: must be untouched
 		if with.Err != "" {
 			return "C14/within-limit/response-broken", "the response could not be read: " + with.Err
+		}
+		if len(with.Interim) != len(without.Interim) {
+			return "C14/within-limit/interim-response-lost", fmt.Sprintf("the handler's %d interim response(s) arrive as %d through size_limit", len(without.Interim), len(with.Interim))
 		}
 		if with.Status != without.Status {
 			bodyless := "with-body"
@@ -340,6 +350,21 @@ func TestVerifC14(t *testing.T) {
 					}
 				}
 			}
+			// interim (1xx) responses before the final one
+			for _, method := range []string{"GET", "HEAD"} {
+				for _, status := range []int{0, 200, 204, 302, 404, 500} {
+					for _, n := range []int{0, 1, L} {
+						if status == 204 && n != 0 {
+							continue
+						}
+						comp := []int{}
+						if n > 0 {
+							comp = []int{n}
+						}
+						run(c14Case{L: L, Position: pos, Method: method, Status: status, Comp: comp, Flush: "none", Interim: 103})
+					}
+				}
+			}
 			// request direction
 			for _, n := range []int{0, L - 1, L, L + 1, 4 * L} {
 				for _, chunked := range []bool{false, true} {
@@ -411,6 +436,9 @@ func TestVerifC14(t *testing.T) {
 								comp = []int{n}
 							}
 							sc := &wire.Script{Status: status, Header: []wire.HeaderLine{{"Content-Type", "text/plain"}}, Parts: partsOf(comp, 5), DeclareLen: fr == "length", FlushEach: fr == "flush"}
+							if n <= 1 && fr == "length" {
+								sc.Interim = 103 // the short cases also with an interim response first
+							}
 							if status == 301 {
 								sc.Header = append(sc.Header, wire.HeaderLine{"Location", "/elsewhere"})
 							}
